@@ -22,6 +22,7 @@ package c15
 
 import (
 	"encoding/json"
+	"errors"
 	"fmt"
 	"os"
 	"runtime"
@@ -95,17 +96,74 @@ func (s subSpec) capacity() int {
 	return s.Buf
 }
 
+// badSpec describes a call the bus has to refuse (it returns an error and no object), so
+// that the history goes on as if the call had never been made:
+//
+//	Call "sub": Subscribe whose argument list consists of pointers to the types Types (in
+//	  that order; possibly none) with one offending element inserted at index Pos:
+//	  Why "nonptr"   a value that is not a pointer (Val: 0 the int 5, 1 an event VALUE such as
+//	                 EvB{} instead of new(EvB), 2 a string, 3 struct{}{}); a list of one element
+//	                 is passed bare when Bare is set;
+//	  Why "wildcard" event.WildcardSubscription inside a list of several elements;
+//	  Why "opt"      nothing offending in the list (Types, or the wildcard when Wild is set),
+//	                 but one of the options returns an error (before or after BufSize).
+//	Call "em": Emitter with Why "nonptr" (Val as above), "wildcard" (the wildcard
+//	  subscription value) or "opt" (pointer to type Types[0], an option that returns an
+//	  error before or after eventbus.Stateful, which is present when Stateful is set).
+//
+// Buf is the BufSize asked for (-1: option omitted).
+type badSpec struct {
+	Call     string `json:"call"`
+	Why      string `json:"why"`
+	Types    []int  `json:"types,omitempty"`
+	Pos      int    `json:"pos,omitempty"`
+	Val      int    `json:"val,omitempty"`
+	Wild     bool   `json:"wild,omitempty"`
+	Bare     bool   `json:"bare,omitempty"`
+	Buf      int    `json:"buf"`
+	OptFirst bool   `json:"opt_first,omitempty"`
+	Stateful bool   `json:"stateful_opt,omitempty"`
+}
+
+func (b badSpec) capacity() int {
+	if b.Buf < 0 {
+		return 16
+	}
+	return b.Buf
+}
+
+// class is the coverage label of the spec.
+func (b badSpec) class() string {
+	if b.Call == "sub" && b.Why != "opt" {
+		switch {
+		case len(b.Types) == 0:
+			return "sub:" + b.Why + ":alone"
+		case b.Pos == 0:
+			return "sub:" + b.Why + ":first-of-list"
+		default:
+			return "sub:" + b.Why + ":after-wellformed-elements"
+		}
+	}
+	return b.Call + ":" + b.Why
+}
+
+func (b badSpec) String() string {
+	return fmt.Sprintf("%s/%s%v@%d/v%d/%v%v/%d/%v%v", b.Call, b.Why, b.Types, b.Pos, b.Val, b.Wild, b.Bare, b.Buf, b.OptFirst, b.Stateful)
+}
+
 // action kinds: emit (burst of N events of emitter E on emit goroutine W), sub (create
 // subscription S), closeSub, resume (S reads continuously from now on), grant (S reads N
-// more events), closeEm, newEm. Y = number of runtime.Gosched calls before acting.
+// more events), closeEm, newEm, bad (make the refused call B of scenario.Bad; any number of
+// times). Y = number of runtime.Gosched calls before acting.
 type action struct {
 	K     string `json:"k"`
 	W     int    `json:"w,omitempty"`
 	E     int    `json:"e,omitempty"`
 	S     int    `json:"s,omitempty"`
+	B     int    `json:"b,omitempty"`
 	N     int    `json:"n,omitempty"`
 	Y     int    `json:"y,omitempty"`
-	Twice bool   `json:"twice,omitempty"` // closeSub: a second concurrent Close
+	Twice bool   `json:"twice,omitempty"` // closeSub / closeEm: a second concurrent Close
 }
 
 func (a action) String() string {
@@ -122,7 +180,12 @@ func (a action) String() string {
 	case "grant":
 		return fmt.Sprintf("grant(s%d,%d)", a.S, a.N)
 	case "closeEm", "newEm":
+		if a.K == "closeEm" && a.Twice {
+			return fmt.Sprintf("closeEm2(e%d)", a.E)
+		}
 		return fmt.Sprintf("%s(e%d)", a.K, a.E)
+	case "bad":
+		return fmt.Sprintf("bad(b%d)", a.B)
 	}
 	return a.K
 }
@@ -138,6 +201,7 @@ type scenario struct {
 	Workers     int          `json:"workers"`  // emit goroutines (at most one unfinished burst each)
 	Ems         []int        `json:"emitters"` // type of each emitter
 	Subs        []subSpec    `json:"subs"`
+	Bad         []badSpec    `json:"bad,omitempty"` // calls the bus has to refuse (action kind "bad")
 	PreEms      int          `json:"pre_emitters"` // created sequentially before step 0
 	PreSubs     int          `json:"pre_subs"`
 	Steps       []step       `json:"steps"`
@@ -183,7 +247,18 @@ type emState struct {
 	closeIssued bool
 	closeCall   int64
 	closeRet    int64
+	closeErr    [2]error // what Close returned (second entry: the concurrent second call)
+	closedTwice bool
 	nextN       int
+}
+
+// badRec is one executed call of a badSpec.
+type badRec struct {
+	spec       badSpec
+	idx, step  int
+	begin, end int64 // stamps around the call (end = 0: not returned)
+	err        error
+	gotObject  bool // a non-nil Subscription / Emitter came back
 }
 
 func (e *emState) ready() bool { return e.em != nil }
@@ -251,11 +326,13 @@ type harness struct {
 	bursts  []*burst
 	recs    map[evKey]*emitRec
 	all     []*emitRec
+	bads    []*badRec
 	anyEmit [nTypes]bool
 	stepNo  int
 	pending []*running
 
 	failure  string
+	stuck    bool
 	labels   map[string]bool
 	trace    []string
 	excluded bool // an action was dropped by the known-finding exclusion
@@ -264,6 +341,7 @@ type harness struct {
 type result struct {
 	excluded   bool
 	failure    string
+	stuck      bool // after the failure an Emit stayed blocked for good: the bubble cannot be wound down
 	labels     []string
 	nontrivial bool
 	trace      string
@@ -317,6 +395,8 @@ func (h *harness) valid(a action, usedSub, usedEm, usedW map[int]bool) bool {
 		return a.E >= 0 && a.E < len(h.ems) && h.ems[a.E].ready() && !h.ems[a.E].closeIssued && !usedEm[a.E]
 	case "newEm":
 		return a.E >= 0 && a.E < len(h.ems) && !h.ems[a.E].created && !usedEm[a.E]
+	case "bad":
+		return a.B >= 0 && a.B < len(h.sc.Bad)
 	}
 	return false
 }
@@ -335,7 +415,7 @@ func (h *harness) unsafe(acts []action) string {
 // past the end of the step.
 func (h *harness) analyse(acts []action) (string, map[int]bool) {
 	stall := map[int]bool{}
-	closing, resuming, newSub, closingEm := map[int]bool{}, map[int]bool{}, map[int]bool{}, map[int]bool{}
+	closing, resuming, newSub, closingEm := map[int]bool{}, map[int]bool{}, map[int]bool{}, map[int]int{}
 	grants := map[int]int{}
 	var load, eusers, xusers [nTypes]int
 	var blk [nTypes]int // calls that hold the bus lock while waiting for the node lock
@@ -387,10 +467,31 @@ func (h *harness) analyse(acts []action) (string, map[int]bool) {
 		case "grant":
 			grants[a.S] += a.N
 		case "closeEm":
-			closingEm[a.E] = true
+			closingEm[a.E] = 1
+			if a.Twice {
+				closingEm[a.E] = 2
+			}
 		case "newEm":
 			xusers[h.ems[a.E].typ]++
 			blk[h.ems[a.E].typ]++
+		case "bad":
+			// A refused call may well take (and give back) the locks the accepted call would
+			// take before it finds out that it has to refuse: it is planned like a user of the
+			// bus lock and of the lock of every well-formed type it names, never as a
+			// subscriber (nobody can read what it does not return).
+			b := h.sc.Bad[a.B]
+			switch {
+			case b.Call == "sub" && b.Wild:
+				xW++
+			case b.Call == "sub":
+				for _, t := range b.Types {
+					xusers[t]++
+					blk[t]++
+				}
+			case b.Why == "opt":
+				xusers[b.Types[0]]++
+				blk[b.Types[0]]++
+			}
 		}
 	}
 	// Emitter.Close takes the bus and node locks only when it may have been the last emitter.
@@ -400,8 +501,8 @@ func (h *harness) analyse(acts []action) (string, map[int]bool) {
 			if e.typ != t || !e.ready() || e.closeIssued {
 				continue
 			}
-			if closingEm[e.id] {
-				closingN++
+			if closingEm[e.id] > 0 {
+				closingN += closingEm[e.id]
 			} else {
 				stay++
 			}
@@ -608,10 +709,106 @@ func (h *harness) doNewEm(e *emState) {
 	e.em = em
 }
 
-func (h *harness) doCloseEm(e *emState) {
+func (h *harness) doCloseEm(e *emState, twice bool, second *running) {
 	e.closeCall = h.now()
-	e.em.Close()
+	if twice {
+		go func() {
+			defer h.guard("second Emitter.Close")
+			e.closeErr[1] = e.em.Close()
+			second.done.Store(true)
+		}()
+	}
+	e.closeErr[0] = e.em.Close()
 	e.closeRet = h.now()
+}
+
+var errRefusedOption = errors.New("c15: option refused")
+
+func refusingOption(any) error { return errRefusedOption }
+
+func nonPointer(val, t int) any {
+	switch val {
+	case 0:
+		return 5
+	case 1:
+		return mkEvent(t%nTypes, 0, 0) // the event value where a pointer to its type is expected
+	case 2:
+		return "EvA"
+	default:
+		return struct{}{}
+	}
+}
+
+// doBad makes one call the bus has to refuse. Whatever comes back is only recorded: the
+// verdict is left to the oracles at the next quiescence point.
+func (h *harness) doBad(r *badRec) {
+	b := r.spec
+	if b.Call == "em" {
+		var arg any
+		switch b.Why {
+		case "nonptr":
+			arg = nonPointer(b.Val, b.Types[0])
+		case "wildcard":
+			arg = event.WildcardSubscription
+		default:
+			arg = typePtr(b.Types[0])
+		}
+		var opts []event.EmitterOpt
+		if b.Stateful {
+			opts = append(opts, eventbus.Stateful)
+		}
+		if b.Why == "opt" {
+			if b.OptFirst {
+				opts = append([]event.EmitterOpt{refusingOption}, opts...)
+			} else {
+				opts = append(opts, refusingOption)
+			}
+		}
+		r.begin = h.now()
+		em, err := h.bus.Emitter(arg, opts...)
+		r.err, r.gotObject = err, em != nil
+		r.end = h.now()
+		return
+	}
+	var list []any
+	for _, t := range b.Types {
+		list = append(list, typePtr(t))
+	}
+	var arg any = list
+	switch {
+	case b.Why == "opt" && b.Wild:
+		arg = event.WildcardSubscription
+	case b.Why == "opt":
+		if len(list) == 1 && b.Bare {
+			arg = list[0]
+		}
+	default:
+		var bad any = event.WildcardSubscription
+		if b.Why == "nonptr" {
+			bad = nonPointer(b.Val, b.Pos)
+		}
+		pos := min(max(b.Pos, 0), len(list))
+		list = append(list[:pos:pos], append([]any{bad}, list[pos:]...)...)
+		arg = list
+		if len(list) == 1 && b.Bare {
+			arg = list[0]
+		}
+	}
+	var opts []event.SubscriptionOpt
+	if b.Buf >= 0 {
+		opts = append(opts, eventbus.BufSize(b.Buf))
+	}
+	if b.Why == "opt" {
+		if b.OptFirst {
+			opts = append([]event.SubscriptionOpt{refusingOption}, opts...)
+		} else {
+			opts = append(opts, refusingOption)
+		}
+	}
+	r.begin = h.now()
+	sub, err := h.bus.Subscribe(arg, opts...)
+	r.err, r.gotObject = err, sub != nil
+	r.end = h.now()
 }
 
 func (h *harness) doSubscribe(s *subState) {
@@ -798,12 +995,27 @@ func (h *harness) launch(acc []action) {
 		case "closeEm":
 			e := h.ems[a.E]
 			e.closeIssued = true
+			e.closedTwice = a.Twice
+			var second *running
+			if a.Twice {
+				second = &running{desc: a.String() + " (second call)"}
+				h.pending = append(h.pending, second)
+			}
 			for _, b := range h.workers {
 				if b != nil && !b.finished.Load() && b.step < h.stepNo && b.em == a.E {
 					h.label("close-emitter-while-emit-blocked")
 				}
 			}
-			body = func() { h.doCloseEm(e) }
+			body = func() { h.doCloseEm(e, a.Twice, second) }
+		case "bad":
+			r := &badRec{spec: h.sc.Bad[a.B], idx: a.B, step: h.stepNo}
+			h.bads = append(h.bads, r)
+			for _, b := range h.workers {
+				if b != nil && !b.finished.Load() && b.step < h.stepNo {
+					h.label("refused-call-while-emit-blocked")
+				}
+			}
+			body = func() { h.doBad(r) }
 		case "newEm":
 			e := h.ems[a.E]
 			e.created = true
@@ -1035,6 +1247,16 @@ func (h *harness) abort() {
 		}
 	}
 	synctest.Wait()
+	for _, b := range h.bursts {
+		if !b.finished.Load() {
+			// An Emit is stuck although every subscription is being drained: it keeps its
+			// node lock for good, and a Close that needs that lock would wait on a mutex, which
+			// freezes the bubble instead of ending it. Leave everything as it is; the stuck
+			// goroutines are reported together with the first failure.
+			h.stuck = true
+			return
+		}
+	}
 	for _, s := range h.subs {
 		if s.ready() && !s.closeIssued {
 			s.closeIssued = true
